@@ -797,7 +797,7 @@ func (s *scanner) nextItem() bool {
 					if s.curr == '*' {
 						s.nextChar()
 						s.name = "*"
-					} else if isName(s.curr) {
+					} else if isNameStart(s.curr) {
 						s.name = s.scanName()
 					} else {
 						panic(fmt.Sprintf("%s has an invalid qualified name.", s.text))
@@ -913,6 +913,11 @@ func (s *scanner) scanName() string {
 func isName(r rune) bool {
 	return string(r) != ":" && string(r) != "/" &&
 		(unicode.Is(first, r) || unicode.Is(second, r))
+}
+
+// isNameStart reports whether r can begin a name (an NCName cannot start with a digit, '-', '.' ...).
+func isNameStart(r rune) bool {
+	return string(r) != ":" && unicode.Is(first, r)
 }
 
 func isDigit(r rune) bool {
